@@ -200,6 +200,26 @@ def run(P, R, tier):
                     nd += 1
                     R.check(fn in ('self.__class__', 'type(self)', 'cls'), 'C16.d', f, s, f'{name} constructs the receiver\'s own class', f'{name} constructs `{fn}`: a derived ring/polygon array changes its kind')
     R.floor('C16.d', 'derivation constructor sites', nd, 6)
+    selection_shortcuts(P, R, ga)
+    # C16.g: every scalar handed out by an array is built like the one `__getitem__` builds: (python value, the array's numpy dtype).  Point scalars
+    # need the dtype (their data is a raw byte string); without it an int64 / float32 point is reinterpreted as float64
+    nel = 0
+    for f_ in P.all_funcs():
+        if not f_.mod.name.startswith('spatialpandas.geometry') or isinstance(f_.node, ast.Lambda):
+            continue
+        for c_ in astq.own_calls(f_):
+            fx = c_.func
+            if isinstance(fx, ast.Name):
+                t_ = astq.trace(f_, fx)
+                fx = t_ if isinstance(t_, ast.AST) else fx
+            if norm(fx) in ('self._element_type', 'self.dtype.type', 'type(self)._element_type'):
+                nel += 1
+                dt = c_.args[1] if len(c_.args) > 1 else astq.arg_of(c_, kw='dtype')
+                R.check(dt is not None and ('numpy_dtype' in norm(astq.expand(f_, dt)) or 'subtype' in norm(astq.expand(f_, dt))), 'C16.g', f_, c_,
+                        'a scalar is built from (value, the array\'s numpy dtype)',
+                        f'`{norm(c_)}` builds a scalar without the array\'s element dtype: a Point of an int64 / float32 array is reinterpreted as float64, so iterating gives other '
+                        'coordinates than indexing', construct=f'{f_.qualname}: scalar construction')
+    R.floor('C16.g', 'scalar constructions in the array classes', nel, 1)
     # ---------------------------------------------------------------- C16.e
     gi = ga.members['__getitem__'][1]
     branch = None
@@ -254,6 +274,100 @@ def run(P, R, tier):
             R.exhaustive_sites['C16.e integer index validation n<=4, |i|<=6'] = True
             R.check(not bad, 'C16.e', gi, branch.test, f'integer indexing accepts exactly -n <= i < n and reads position i (mod n) on all {total} evaluated (n, i)',
                     f'integer indexing is wrong for {bad[:4]}', construct='integer index validation', counterexamples=bad[:8])
+
+
+def selection_shortcuts(P, R, ga):
+    """C16.f  A positional selection (take, boolean mask, integer array) may be served by a slice only when the requested positions ARE that slice.
+    Every `return self[lo:hi]` whose bounds derive from the values of an index vector is evaluated, together with the tests guarding it, on all small
+    index vectors (length <= 4 over positions 0..4; strictly increasing ones where the vector comes from np.nonzero): the positions of the slice must
+    equal the vector (E-VEC small-scope evaluation of structural integers)."""
+    import itertools as _it
+    import veceval
+    nsites = 0
+    for fname in ('take', '__getitem__'):
+        mem = ga.members.get(fname)
+        if mem is None or mem[0] != 'func':
+            continue
+        f = mem[1]
+        for ret in [x for x in walk_own(f.node) if isinstance(x, ast.Return) and isinstance(x.value, ast.Subscript) and norm(x.value.value) in ('self', 'self.data')
+                    and isinstance(x.value.slice, ast.Slice)]:
+            sl = ret.value.slice
+            bnames = set()
+            for b_ in (sl.lower, sl.upper):
+                if b_ is not None:
+                    bnames |= astq.names_in(b_)
+            if not bnames:
+                continue
+            # source names of the bounds
+            src = set(bnames)
+            changed = True
+            while changed:
+                changed = False
+                for nm in list(src):
+                    for d in astq.assignments(f, nm):
+                        if d[0] in ('expr', 'unpack') and isinstance(d[1], ast.AST):
+                            new = astq.names_in(d[1]) - src
+                            if new:
+                                src |= new
+                                changed = True
+            vec = [v for v in src if v not in ('self', 'np', 'pa', 'pd') and (v in f.params or any(d[0] == 'expr' and ('nonzero(' in norm(d[1]) or 'asarray(' in norm(d[1]) or 'np.array(' in norm(d[1]))
+                                                                                                    for d in astq.assignments(f, v)))]
+            vec = [v for v in vec if v != f.params[1] or fname == 'take'] if fname == '__getitem__' else vec
+            if len(vec) != 1:
+                continue
+            V = vec[0]
+            strictly = any(d[0] == 'expr' and 'nonzero(' in norm(d[1]) for d in astq.assignments(f, V))
+            # fragment: siblings of the outermost guarding statement, from the first one that mentions a V-derived name
+            top = ret
+            while getattr(top, '_parent', None) is not None and isinstance(top._parent, ast.If) and (astq.names_in(top._parent.test) & src):
+                top = top._parent
+            par = getattr(top, '_parent', None)
+            sibs = None
+            for field in ('body', 'orelse'):
+                lst = getattr(par, field, None)
+                if isinstance(lst, list) and top in lst:
+                    sibs = lst
+            if sibs is None:
+                continue
+            k = sibs.index(top)
+            j = k
+            while j > 0 and isinstance(sibs[j - 1], ast.Assign) and (astq.names_in(sibs[j - 1].value) & src) and not any(isinstance(t, ast.Name) and t.id == V for t in sibs[j - 1].targets):
+                j -= 1
+            frag = sibs[j:k + 1]
+            nsites += 1
+            bad, total, undec = [], 0, None
+            for n_ in range(1, 6):
+                for ln in range(0, 5):
+                    for vals in _it.product(range(n_), repeat=ln):
+                        vals = list(vals)
+                        if strictly and any(b <= a for a, b in zip(vals, vals[1:])):
+                            continue
+                        total += 1
+                        ev = veceval.VecEval(P, f, {V: vals}, n_)
+                        ev.env['len_self'] = n_
+                        try:
+                            ev.block(frag)
+                        except veceval.Returned as r_:
+                            if r_.node is ret and isinstance(r_.value, veceval.SelfSlice):
+                                if r_.value.positions(n_) != vals:
+                                    bad.append({'requested': vals, 'len': n_, 'slice': [r_.value.lo, r_.value.hi], 'returns positions': r_.value.positions(n_)})
+                        except veceval.Unsupported as e_:
+                            undec = str(e_)
+                            break
+                        except (IndexError, TypeError, ValueError, ZeroDivisionError):
+                            pass
+                    if undec:
+                        break
+                if undec:
+                    break
+            if undec:
+                R.abstain('C16.f', f, ret, f'slice shortcut `{norm(ret)}`: its guard uses a construct the small-scope evaluator does not model ({undec})', construct=f'{f.qualname}: {norm(ret)}')
+                continue
+            R.count('typed_ops', total)
+            R.check(not bad, 'C16.f', f, ret, f'`{norm(ret)}` is taken only when the requested positions are exactly that slice ({total} index vectors)',
+                    f'`{norm(ret)}` is taken for index vectors that are not that slice, e.g. {bad[:3]}: repeated / skipped positions come back as a run of neighbouring rows',
+                    construct=f'{f.qualname}: {norm(ret)}', counterexamples=bad[:5])
+    R.count('selection_shortcut_sites', nsites)
 
 
 def _d(ix):
